@@ -88,7 +88,7 @@ def run(r):
         slow = []
         for c, o in zip(cases, res):
             r.count("kind:" + c["kind"].split(":")[0])
-            r.count("outcome:" + ("returned", "ImportError", "OTHER")[o["cls"]] if isinstance(o, dict) else "harness-error")
+            r.count("outcome:" + ("returned", "ImportError", "OTHER", "TIME-LIMIT")[o["cls"]] if isinstance(o, dict) else "harness-error")
             r.case(("c11", C.digest(c["bytes"])), nontrivial=c["kind"] != "valid",
                    sample={"kind": c["kind"], "src": c["src"], "len": len(c["bytes"]), "outcome": o} if len(r.cov["samples"]) < 6 and c["kind"].startswith("hostile") else None)
             if not isinstance(o, dict):
